@@ -10,7 +10,7 @@ META = {
                    're-initialisation of the buffer or the return without passing a flush (builder calls reading its elements) or an emptiness '
                    'test; R09.4 an odd array doubles the period, the offset is reduced modulo the period and wrapped when negative; R04.4 dashes '
                    'are emitted only on the true edge of period > 0; R04.5 the pipeline flatten -> dash -> stroke with the same style.',
-    'decides': ['R09.9 after every toggle in the op loop the first-segment flag is false before its next test', 'R09.10 the chopping loops only ever reduce the remaining length by the dash consumed (termination)', 'R09.1 pattern restarted per subpath', 'R09.2 sibling chopping loops agree', 'R09.3 first-dash buffer never dropped unflushed', 'R09.4 odd arrays and offsets', 'R09.5 subpath start emitted after the previous flush', 'R09.6 Close re-seats both cursors at the subpath start and re-initialises the per-subpath state', 'R04.4 non-positive/NaN period paints nothing', 'R04.5 pipeline', 'R04.1-R04.3 each piece gets the chosen caps and joins'],
+    'decides': ['R09.11 the walk never starts on an exhausted entry: the rest stored ahead of the op loop is `remaining - x` under a comparison making x strictly smaller', 'R09.12 dash_path returns only what its builder built', 'R09.9 after every toggle in the op loop the first-segment flag is false before its next test', 'R09.10 the chopping loops only ever reduce the remaining length by the dash consumed (termination)', 'R09.1 pattern restarted per subpath', 'R09.2 sibling chopping loops agree', 'R09.3 first-dash buffer never dropped unflushed', 'R09.4 odd arrays and offsets', 'R09.5 subpath start emitted after the previous flush', 'R09.6 Close re-seats both cursors at the subpath start and re-initialises the per-subpath state', 'R04.4 non-positive/NaN period paints nothing', 'R04.5 pipeline', 'R04.1-R04.3 each piece gets the chosen caps and joins'],
     'does_not_decide': ['arc-length positions of dash boundaries, the 0.75 px margins, join/cap geometry of the pieces (numeric)'],
     'assumptions': ['stroke_to_path strokes each emitted polyline as an open/closed subpath (C04 clauses)'],
     'trusted_base': ['lyon_geom 1.0.19 (LineSegment::length/to_vector)'],
@@ -18,4 +18,4 @@ META = {
 
 
 def run(ctx):
-    engine.run_rules(ctx, [sd.r09_1, sd.r09_1b, sd.r09_2, sd.r09_3, sd.r09_4, sd.r09_5, sd.r09_6, sd.r09_7, sd.r09_8, sd.r09_9, sd.r09_10, sd.r04_15, sd.r04_4, sd.r04_5, sd.r04_1, sd.r04_2, sd.r04_3, sd.r04_7, sd.r04_8, sd.r04_12])
+    engine.run_rules(ctx, [sd.r09_1, sd.r09_1b, sd.r09_2, sd.r09_3, sd.r09_4, sd.r09_5, sd.r09_6, sd.r09_7, sd.r09_8, sd.r09_9, sd.r09_10, sd.r09_11, sd.r09_12, sd.r04_15, sd.r04_4, sd.r04_5, sd.r04_1, sd.r04_2, sd.r04_3, sd.r04_7, sd.r04_8, sd.r04_12])
